@@ -392,7 +392,20 @@ def factory (S : Schema) (perm : Bool) (b : Bytes) : Except DecErr Msg :=
                     .ok { msgType := mt
                           header := [.fld 8 S.beginStr, .fld 9 (Digits.itoa (wrapInt32 (atoiU (cstr lenT)))), .fld 35 mt] ++ h.items
                           body := bd.items
-                          trailer := tr.items ++ [.fld 10 chk]
+                          -- the pre-set CheckSum sits at its schema position (3) in the `_pos` multimap, decoded trailer
+                          -- fields get positions 2, 3, ..: the first one sorts before it, the others after it
+                          trailer := tr.items.take (((findTrait S.trailer 10).map (·.pos)).getD 3 - 2) ++ [.fld 10 chk] ++
+                                     tr.items.drop (((findTrait S.trailer 10).map (·.pos)).getD 3 - 2)
                           hUnknown := h.unknown, bUnknown := bd.unknown, tUnknown := tr.unknown }
+
+/-- the bytes between the BodyLength field and the CheckSum field (same expression as inside `encodeMsg`) -/
+def msgPayload (S : Schema) (body : List Trait) (m : Msg) : Bytes :=
+  encodeItems S.header S m.header ++ m.hUnknown ++ encodeItems body S m.body ++ m.bUnknown ++
+    encodeItems S.trailer S m.trailer ++ m.tUnknown
+
+/-- `Message::encode(f8String&)` encodes into a stack buffer of `FIX8_MAX_MSG_LENGTH + HEADER_CALC_OFFSET` bytes: the payload is
+written from offset `HEADER_CALC_OFFSET`, followed by the 7 CheckSum bytes and a NUL -/
+def encodeFitsBuffer (S : Schema) (body : List Trait) (m : Msg) : Bool :=
+  (msgPayload S body m).length + 8 ≤ Gen.maxMsgLength
 
 end Fix8Model.Codec
